@@ -184,8 +184,11 @@ M("e3-leave-finalizer-keeps-own-context", ["C07"], CO,
   "                    self.loop_stack = contexts[:i]\n", "                    self.loop_stack = contexts[: i + 1]\n",
   [("C07", "C07-R4b", "finally-scope")])
 M("e3-leave-forgets-pending-return-value", ["C02", "C05"], CO,
-  "                    if pending_operands:\n                        self.loop_stack.append(\n                            LoopContext(\n                                is_loop=False,\n                                is_try=True,\n                                stack_items=pending_operands,\n                            )\n                        )\n", "",
+  "                    if waiting:\n                        self.loop_stack.append(\n                            LoopContext(\n                                is_loop=False,\n                                is_try=True,\n                                stack_items=waiting,\n                            )\n                        )\n", "",
   [("C02", "C02-R6", "ReturnStatement:crossing"), ("C05", "C05-R3$", "ReturnStatement:crossing")])
+M("e3-leave-forgets-operands-of-left-contexts", ["C02"], CO,
+  "            else:\n                waiting += ctx.stack_items\n", "",
+  [("C02", "C02-R6", "ReturnStatement:crossing")], note="fix 3b8c2ec reverted: return out of for-in through a finally with continue leaks the iterator")
 M("e3-leave-stops-at-first-loop", ["C07", "C05"], CO,
   "            if ctx is target:\n                break\n            if ctx.is_try:",
   "            if ctx is target or (target is not None and ctx.is_loop and not ctx.stack_items):\n                break\n            if ctx.is_try:",
@@ -199,8 +202,8 @@ M("e3-continue-accepts-label-of-block", ["C05", "C02"], CO,
   "                if not loop_ctx.is_loop and not (\n                    target_label is not None and loop_ctx.has_label(target_label)\n                ):\n                    continue\n",
   [("C05", "C05-R1c", "LabeledStatement:ctx:continue_jumps"), ("C02", "C02-R9", "LabeledStatement:ctx:continue_jumps")])
 T("t-leave-loop-forwards", ["C02", "C05", "C07"], CO,
-  "        contexts = self.loop_stack\n        for i in range(len(contexts) - 1, -1, -1):\n            ctx = contexts[i]\n",
-  "        contexts = self.loop_stack\n        for i in reversed(range(len(contexts))):\n            ctx = contexts[i]\n")
+  "        for i in range(len(contexts) - 1, -1, -1):\n            ctx = contexts[i]\n            if ctx is target:",
+  "        for i in reversed(range(len(contexts))):\n            ctx = contexts[i]\n            if ctx is target:")
 M("e3-switch-default-early-jump", ["C05"], CO,
   "                else:\n                    default_index = i\n", "                else:\n                    default_index = i\n                    self._emit_jump(OpCode.JUMP)\n",
   [("C05", "C05-R1", "SwitchStatement")])
@@ -625,3 +628,5 @@ M("c02-host-budget-never-released", ["C02"], VM,
   "        self._enter_host_level()\n        try:\n            return self._execute()\n        finally:\n            self.host_depth[0] -= 1\n",
   "        self._enter_host_level()\n        return self._execute()\n",
   [], note="a budget that is charged but not released: a VM runs once, so nothing observable follows; not decided")
+# wave 3 (written against the repaired tree)
+S("seed-C07-c", ["C07"], "seeded/C07-c/patch.diff", [("C07", "C07-R2$", "handler-stack")], note="return keeps the handler record of a try without finally")
